@@ -44,6 +44,10 @@ ASSUMPTIONS = [
 TRUSTED = [
     "gen/valid_ops.py: validity BY CONSTRUCTION of the generated documents (the specification side of the oracle); "
     "gen/violations.py: each injector breaks exactly the labelled rule",
+    "the overlap theorems for the code /repo runs (Props/C06_overlap_memo*.lean, C06_head_memo.lean) are stated about "
+    "`overlapMemoRun` (memoised search folded over the typed enumeration); that it counts the same errors as the chain "
+    "run with the memoised search inside (`runM`, the model compared with the real validator) is not proved: "
+    "cross-checked on every rule-alone answer (`memo:alone-vs-chain`, failure `memo:theorem-function-differs-from-chain`)",
 ]
 
 VALIDATE = REPO / "src/py_gql/validation/validate.py"
